@@ -11,6 +11,7 @@ ID = "C13"
 LEVEL = "exploration"
 EXAMPLES = {"quick": 480, "thorough": 9000}
 SHRINK_S = {"quick": 12, "thorough": 60}
+DEADLINE_S = {"quick": 420, "thorough": 3000}
 RULE = ("Hypothesis draws a 2-3 voltage level network recipe (<= 9 buses, 2W and 3W transformers) and 1-5 controllers: "
         "DiscreteTapControl (band given or from_tap_step_percent, band 0.3-3 tap steps wide) and ContinuousTapControl on 2W/3W "
         "transformers whose tap changer is redrawn (tap side hv/mv/lv, controlled side hv/mv/lv, range up to +-9, random start "
@@ -26,6 +27,8 @@ RULE = ("Hypothesis draws a 2-3 voltage level network recipe (<= 9 buses, 2W and
         "level, and every sweep of a block asks each controller of the level once in non-decreasing order, control_step only "
         "directly after a False is_converged. Non-trivial = a call returned with >= 2 in-service controllers and >= 1 tap moved; "
         "distinct by case hash.")
+TECHNIQUE = ("property-based testing: Hypothesis network recipe + controller set + call history; oracle = own convergence / band / "
+             "direction rules, call-order protocol from a recording proxy, differential comparison with a fresh power flow")
 ASSUMPTIONS = ["power flows use tolerance_mva = 1e-10 scaled with sn_mva; results compared with 1e-6 MVA / 1e-7 relative, angles 1e-5 deg",
                "discrete band closed [vm_lower, vm_upper]; from_tap_step_percent band = vm_set +- (tap_step_percent/200 + tol); "
                "continuous: |vm - vm_set| <= tol * max(vm, vm_set) or tap at tap_min/tap_max",
@@ -33,6 +36,8 @@ ASSUMPTIONS = ["power flows use tolerance_mva = 1e-10 scaled with sn_mva; result
                "in-service ext_grid bus or has no voltage (the controller documents these as nothing to do)",
                "needed direction: tap changer in the controlled winding -> higher tap raises the voltage, in any other winding -> "
                "lowers it; times sign(cos(tap_step_degree))",
+               "a transformer never gets a DiscreteTapControl and a ContinuousTapControl at the same time (the discrete controller "
+               "presumes the documented integer tap_pos; from a fractional position its +-1 step can pass tap_min/tap_max)",
                "tap_step_degree 90 deg is not generated for controlled transformers (ratio independent of the tap direction)",
                "check_tap_bounds=False and check_each_level=False / continue_on_divergence=True are not generated (documented "
                "switches that waive parts of the property)"]
@@ -64,8 +69,8 @@ def _tap(draw, et):
          "tap_side": draw(st.sampled_from(["hv", "lv"] if et == "trafo" else ["hv", "mv", "lv"])),
          "tap_neutral": neutral, "tap_min": tmin, "tap_max": tmax, "tap_pos": draw(st.integers(tmin, tmax)),
          "tap_step_percent": draw(netgen.q(0.5, 2.5, nd=2))}
-    if d["tap_changer_type"] == "Ratio" and draw(st.integers(0, 2)) == 0:
-        d["tap_step_degree"] = draw(st.sampled_from([0.0, 30.0, 60.0, 120.0, 150.0, 180.0]))
+    if d["tap_changer_type"] == "Ratio" and draw(st.integers(0, 1)):
+        d["tap_step_degree"] = draw(st.sampled_from([180.0, 0.0, 150.0, 30.0, 120.0, 60.0]))
     return d
 
 
@@ -105,6 +110,7 @@ def _case(draw, tier):
     ctrls = []
     free = list(trafos)
     retapped = set()
+    kind_on = {}
     char_free = {t: list(range(sum(1 for e in el if e["t"] == t))) for t in ("sgen", "load")}   # distinct Q(V) targets
     for i in range(n):
         kind = draw(st.sampled_from(["discrete", "continuous", "discrete", "const", "continuous", "discrete", "char", "const",
@@ -121,6 +127,10 @@ def _case(draw, tier):
                 et, k = pick
             else:
                 et, k = draw(st.sampled_from(trafos))
+                # a second controller on one transformer is of the same kind: DiscreteTapControl works on the documented integer
+                # tap positions, a ContinuousTapControl on the same transformer would hand it fractional ones
+                kind = c["kind"] = kind_on[(et, k)]
+            kind_on[(et, k)] = kind
             e = by_ord[(et, k)]
             if (et, k) not in retapped:
                 retapped.add((et, k))
@@ -165,7 +175,9 @@ def _case(draw, tier):
         calls.append({"how": draw(st.sampled_from(["run_control", "runpp", "run_control"] if j == 0 else ["runpp", "run_control"])),
                       "max_iter": draw(st.sampled_from([30, 30, 50, 10, 30, 3, 1])),
                       "load_scale": draw(st.sampled_from([0.4, 0.7, 1.5, 2.0])) if j else None})
-    opt = {"calculate_voltage_angles": draw(st.sampled_from([True, True, False])), "numba": True}
+    # numba only in the thorough tier: its compilation costs every worker process 15-60 s, the controller loop does not depend on it
+    opt = {"calculate_voltage_angles": draw(st.sampled_from([True, True, False])),
+           "numba": False if tier == "quick" else draw(st.sampled_from([False, True, True]))}
     netgen.normalize(recipe)      # switches were closed after netgen's own normalisation: one setpoint per electrical node
     return {"recipe": recipe, "ctrl": ctrls, "calls": calls, "opt": opt}
 
@@ -246,8 +258,13 @@ def attach(net, maps, specs):
         common = dict(in_service=c["in_service"], level=c["level"], order=c["order"])
         info = dict(c)
         if kind in ("discrete", "continuous"):
-            tid = maps[c["et"]][c["k"]]
-            info["tid"] = tid
+            et, side = c["et"], c["side"]
+            if not maps.get(et):                   # hand-edited / reduced case: fall back to the transformer kind that exists
+                et = "trafo" if et == "trafo3w" else "trafo3w"
+                side = "lv" if (et == "trafo" and side == "mv") else side
+            tid = maps[et][c["k"] % len(maps[et])]
+            info.update(tid=tid, et=et, side=side)
+            c = dict(c, et=et, side=side)
             if kind == "discrete":
                 if "vm_lower_pu" in c:
                     obj = ct.DiscreteTapControl(net, tid, c["vm_lower_pu"], c["vm_upper_pu"], side=c["side"], element=c["et"],
@@ -519,6 +536,7 @@ def check(case):
             return res
         res.label("outcome:" + (raised.split(":")[0] if raised else "returned"))
 
+        n_steps = sum(1 for ev in rec.events if ev[0] == "step")
         # (3) taps stay in range - after every control_step, and at the end (also after a raise)
         for idx, tp, lo, hi in rec.range_viol:
             kind = next(i["kind"] for i in infos if i["index"] == idx)
@@ -542,26 +560,30 @@ def check(case):
             if raised.startswith("rejected"):
                 res.skipped = raised
                 return res
-            if cno == len(case["calls"]) - 1 and not nontrivial:
+            if raised == "ControllerNotConverged" and cno < len(case["calls"]) - 1:
+                continue     # the net stays usable: the next call follows
+            if not nontrivial:
                 res.skipped = "not-converged"
-            if raised == "ControllerNotConverged":
-                continue     # the net stays usable: a later call may follow
-            return res
+            break
 
         # ---- returned normally
+        if not (net["converged"] or net.get("OPF_converged", False)):
+            res.fail("returned-with-net-not-converged", call=call)
         moved = [k for k, v in tap0.items() if float(net[k[0]].at[k[1], "tap_pos"]) != v]
-        n_steps = sum(1 for ev in rec.events if ev[0] == "step")
         if moved:
             res.label("tap-moved")
         # (2) results = fresh power flow of the final tables
         fresh = oracles.strip_results(net)
+        ins = net.controller.in_service.values.astype(bool)
+        # no in-service controller asked for an initial run and none was stepped: the call returned without any power flow
+        no_pf = bool(ins.any()) and n_steps == 0 and not net.controller.initial_run.values[ins].astype(bool).any()
         try:
             with silence():
                 pp.runpp(fresh, run_control=False, **pfkw)
             fresh_ok = True
         except Exception as e:
             fresh_ok = False
-            res.fail("stale-results/fresh-run-fails", error=repr(e)[:200], call=call)
+            res.fail("stale-results/fresh-run-fails" + ("/call-ran-no-power-flow" if no_pf else ""), error=repr(e)[:200], call=call)
         if fresh_ok:
             atol = 1e-6 * max(1.0, sn / 100.0)
             diffs = oracles.compare_results(net, fresh, atol=atol, rtol=1e-7)
@@ -571,9 +593,7 @@ def check(case):
                 lpf = last_power_flow_pos(blocks)
                 late = [w for w in rec.writes if w[0] > lpf]
                 cause = "other"
-                ins = net.controller.in_service.values.astype(bool)
-                if n_steps == 0 and not net.controller.initial_run.values[ins].astype(bool).any():
-                    # no controller asked for an initial run and none was stepped: the call returned without any power flow
+                if no_pf:
                     cause = "call-ran-no-power-flow/all-controllers-initial_run-false-and-converged"
                 elif late:
                     undo = oracles.strip_results(net)
@@ -654,8 +674,6 @@ def check(case):
             if sig:
                 if i["index"] in disturbed:
                     continue      # same root cause, already reported under the F16 signature
-                if disturbed_by_later_level(blocks, i["index"]):
-                    sig = F16_SIG   # the controller calls itself converged (e.g. strict/closed band edge) but the state was left by a later level
                 res.fail(sig, controller=int(i["index"]), trafo=[i["et"], int(tid)], tap_side=t.at[tid, "tap_side"], side=i["side"], call=call, **detail)
         n_in = sum(1 for i in infos if i["in_service"])
         if n_in >= 2 and moved:
